@@ -47,6 +47,9 @@ func synVerdict(salt int, lv api.LevelVersion, name string) []policy.CheckResult
 	if x%7 == 0 {
 		out = append(out, policy.CheckResult{Allowed: false, ForbiddenReason: "shared"})
 	}
+	if x%11 == 0 { // a check that forbids without naming a reason (the aggregate then says "unknown forbidden reason")
+		out = append(out, policy.CheckResult{Allowed: false, ForbiddenDetail: "anon " + name})
+	}
 	out = append(out, policy.CheckResult{Allowed: true})
 	return out
 }
